@@ -441,6 +441,24 @@ pub fn generate(tier: &str, rng: &mut Rng) -> (Vec<String>, bool) {
         }
     }
 
+    // (H5) ties: every series over {0,1,2,3,4} of length 4..=6 (7) for which some lag's autocorrelation is
+    // EXACTLY 0.5 in f64 (classification `h`), min_periods 1 and 2: the comparisons of the doubling search
+    // and of the bisection with 0.5 are observable only there
+    let h5_len = if thorough { 7 } else { 6 };
+    let mut ties = 0usize;
+    for len in 4..=h5_len {
+        for xs in all_series(&["0", "1", "2", "3", "4"], len) {
+            for mp in [Some(1), Some(2)] {
+                let c = imp::oracle(&series_of(&xs), "f64", mp);
+                if c.contains('h') && ties < (if thorough { 4000 } else { 600 }) {
+                    ties += 1;
+                    k += 1;
+                    push_half_life(&mut out, &xs, mp, hl_type(&xs, k));
+                }
+            }
+        }
+    }
+
     /* ---- winsorize: exhaustive-small stream ---- */
     // every series over {null,0,1,4} up to length 5 (6) x 3 methods x parameter grids, each with the
     // model's own bounds and with the library's bounds
@@ -556,7 +574,7 @@ pub fn generate(tier: &str, rng: &mut Rng) -> (Vec<String>, bool) {
 pub fn rule(tier: &str) -> String {
     let th = tier == "thorough";
     format!(
-        "half_life: the request carries the classification of the REAL lag autocorrelations (library vcorr_pearson o vshift, lags 1..=len) as the model's oracle; exhaustive streams: every series over {{null,0,1,2}} up to length {} x every min_periods in {{omitted}} U 1..=len; every integrated path (x0=0, steps -1/+1/+2) of length 2..={} x min_periods {{omitted,1,3}}; trend / saw-tooth / tent series of every length 0..={} x 6 min_periods (incl. len=64, mp=24: above 0.5 exactly up to lag 40); random stream: AR(1) with phi in {{-.9,-.5,0,.3,.5,.7,.8,.9,.95,.99,1}}, trend+noise, constant, alternating, periodic, 4 null patterns, lengths up to {}. \
+        "half_life: the request carries the classification of the REAL lag autocorrelations (library vcorr_pearson o vshift, lags 1..=len) as the model's oracle; exhaustive streams: every series over {{null,0,1,2}} up to length {} x every min_periods in {{omitted}} U 1..=len; every integrated path (x0=0, steps -1/+1/+2) of length 2..={} x min_periods {{omitted,1,3}}; trend / saw-tooth / tent series of every length 0..={} x 6 min_periods (incl. len=64, mp=24: above 0.5 exactly up to lag 40); every series over {{0,1,2,3,4}} of length 4..=6 (7) with a lag whose autocorrelation is exactly 0.5 in f64 (up to 600 / 4000 of them) x min_periods {{1,2}}; random stream: AR(1) with phi in {{-.9,-.5,0,.3,.5,.7,.8,.9,.95,.99,1}}, trend+noise, constant, alternating, periodic, 4 null patterns, lengths up to {}. \
          winsorize: every series over {{null,0,1,4}} up to length {} x (Quantile q in {{default,0,1/8,1/4,3/8,1/2}}, Median and Sigma k in {{default,0,1/2,1,3}}), each case once with the model's own bounds and once with the library's bounds (exact binary expansion) fed to the model's vclip; a periodic series with one far outlier at either end for every length 3..=24 x the same grids; random stream: lengths up to 120, values k/8, q also 1/100,1/20,1/10,1/3,2/5. \
          Spearman: every pair of series over {{null,0,1,2}} up to length 3 and over {{null,0,1}} of length 4 x min_periods, strictly increasing transforms (id, 2x+1, x^3, exp) rotated over both arguments; random stream with ties, nulls and noisy monotone images. Element types f64 / Option<f64> / i32 rotated. non-trivial = distinct request with >= 2 input elements and a non-null output.",
         if th { 7 } else { 6 }, if th { 10 } else { 8 }, if th { 300 } else { 72 }, if th { 300 } else { 80 }, if th { 6 } else { 5 })
